@@ -19,6 +19,23 @@ use iceoryx2_cal::named_concept::{NamedConceptPathHintRemoveError, NamedConceptR
 /// starts at 100 (no all-zero statics)
 pub static mut WOULD_BLOCK: u32 = 100;
 
+fn ktrig_noop() {}
+/// Interleaving hook of the trigger model: fired once at the selected seam so that a harness can
+/// let the other side act there.  1 = entry of a wait call (the listener failed its state check
+/// and is about to sleep), 3 = entry of `empty_buffer`, 9 = never.
+pub static mut KTRIG_HOOK: fn() = ktrig_noop;
+pub static mut KTRIG_HOOK_AT: u8 = 9;
+pub static mut KTRIG_HOOK_FIRED: u8 = 2;
+
+fn fire(at: u8) {
+    unsafe {
+        if KTRIG_HOOK_AT == at && KTRIG_HOOK_FIRED == 2 {
+            KTRIG_HOOK_FIRED = 1;
+            (KTRIG_HOOK)();
+        }
+    }
+}
+
 #[derive(Debug)]
 #[repr(C)]
 pub struct KMgmt {
@@ -49,6 +66,7 @@ impl<E: EventState, Storage: DynamicStorage<State<E, KMgmt>>> WaiterInterface<E,
         Ok(KTrig { mgmt: mgmt.as_ptr() })
     }
     fn try_wait(&self) -> Result<(), ListenerWaitError> {
+        fire(1);
         let c = unsafe { &(*self.mgmt).counter };
         let v = c.load(Ordering::SeqCst);
         if v > 0 {
@@ -60,6 +78,7 @@ impl<E: EventState, Storage: DynamicStorage<State<E, KMgmt>>> WaiterInterface<E,
         <Self as WaiterInterface<E, KMgmt, Storage>>::blocking_wait(self)
     }
     fn blocking_wait(&self) -> Result<(), ListenerWaitError> {
+        fire(1);
         let c = unsafe { &(*self.mgmt).counter };
         let v = c.load(Ordering::SeqCst);
         if v > 0 {
@@ -70,6 +89,7 @@ impl<E: EventState, Storage: DynamicStorage<State<E, KMgmt>>> WaiterInterface<E,
         Ok(())
     }
     fn empty_buffer(&self) -> Result<(), ListenerWaitError> {
+        fire(3);
         unsafe { (*self.mgmt).counter.store(0, Ordering::SeqCst) };
         Ok(())
     }
